@@ -238,6 +238,49 @@ func (fr *Frame) matchingHooks(name, op string) []*Clause {
 	return out
 }
 
+func (fr *Frame) markAliveResult(st *State, v Val) {
+	if len(v.Tuple) > 0 {
+		for _, x := range v.Tuple {
+			fr.markAliveResult(st, x)
+		}
+		return
+	}
+	if v.Typ == nil || len(v.Ts) == 0 {
+		return
+	}
+	vc := fr.vc
+	switch t := v.Typ.Underlying().(type) {
+	case *types.Pointer:
+		st.alive = vc.define("alive", SortArr(SortRef, SortBool), Sto(st.alive, v.Ts[0], True))
+		fr.markNested(st, t.Elem(), v.Ts[0], 0)
+	case *types.Map, *types.Chan:
+		st.alive = vc.define("alive", SortArr(SortRef, SortBool), Sto(st.alive, v.Ts[0], True))
+	case *types.Slice:
+		st.alive = vc.define("alive", SortArr(SortRef, SortBool), Sto(st.alive, v.Ts[0], True))
+		vc.assume(True, And(app("bvsge", v.Ts[1], BV(0, 64)), app("bvsge", v.Ts[2], BV(0, 64)), app("bvsle", v.Ts[2], v.Ts[3]), app("bvsle", v.Ts[3], BVu(1<<48, 64)), app("bvsle", v.Ts[1], BVu(1<<48, 64))))
+	case *types.Interface:
+		st.alive = vc.define("alive", SortArr(SortRef, SortBool), Sto(st.alive, v.Ts[1], True))
+		vc.assume(True, Imp(Eq(v.Ts[0], BV(0, 64)), Eq(v.Ts[1], BV(0, 64))))
+	}
+}
+
+func (fr *Frame) markNested(st *State, t types.Type, ref T, depth int) {
+	vc := fr.vc
+	sty, ok := structOf(t)
+	if !ok || depth > 3 {
+		return
+	}
+	for i := 0; i < sty.NumFields(); i++ {
+		f := sty.Field(i)
+		switch f.Type().Underlying().(type) {
+		case *types.Struct, *types.Array:
+			sub := vc.subRef(t, f.Name(), ref)
+			st.alive = vc.define("alive", SortArr(SortRef, SortBool), Sto(st.alive, sub, True))
+			fr.markNested(st, f.Type(), sub, depth+1)
+		}
+	}
+}
+
 func (fr *Frame) assumeAliveResult(st *State, pc T, v Val) {
 	if len(v.Tuple) > 0 {
 		for _, x := range v.Tuple {
@@ -460,6 +503,8 @@ func (fr *Frame) applyContract(fc *FuncContract, callee *ssa.Function, args []Va
 		tags := unionTags(fr.tags, cl.Tags)
 		for j, g := range gs {
 			vc.oblige("pre", fmt.Sprintf("%s/call/%s/pre#%d.%d", FuncKey(fr.fn), fc.Key, i+1, j+1), tags, pc, g, pos, cl.Text)
+		}
+		for _, g := range gs {
 			vc.assume(pc, g)
 		}
 	}
@@ -492,7 +537,8 @@ func (fr *Frame) applyContract(fc *FuncContract, callee *ssa.Function, args []Va
 		}
 	}
 	res := vc.freshResult(shortName(fc.Key), rt)
-	fr.assumeAliveResult(st, pc, res)
+	// results may be objects the callee allocated: they are alive from now on (not necessarily before the call)
+	fr.markAliveResult(st, res)
 	env2 := fr.calleeEnv(fc, callee, args, recv, st, pc)
 	env2.old = old
 	env2.bindResults(callee, rt, res)
